@@ -152,7 +152,7 @@ def ops_from_json(data):
     out = []
     for op in data:
         t = op[0]
-        if t in ('ins', 'add'):
+        if t in ('ins', 'add', 'insord'):
             out.append((t, Spec.from_json(op[1])) + tuple(op[2:]))
         elif t == 'text':
             out.append((t, [Spec.from_json(s) for s in op[1]]))
@@ -185,6 +185,8 @@ def op_line(op):
     specs = lambda l: '%d %s' % (len(l), ','.join(s.proto() for s in l) if l else '-')
     if t == 'ins':
         return 'ins %s %s %d' % (op[1].proto(), idx(op[2]), op[3])
+    if t == 'insord':
+        return 'insord %s %d %d' % (op[1].proto(), op[2], op[3])
     if t == 'add':
         return 'add %s %d' % (op[1].proto(), op[2])
     if t == 'del':
@@ -289,6 +291,11 @@ def boundary_histories():
     hs.append([('add', S('media', kids=[st, co]), 0), ('add', S('page', kids=[S('margin', pre='@top-left')]), 1),
                ('del', 0), ('text', [st])])
     hs.append([('add', S('margin', pre='@top-left'), 0), ('add', im, 0), ('add', ns, 0), ('ins', S('margin', pre='@top-left'), 0, 1)])
+    # insertRule(rule, index, inOrder=True): the doc string says the index is ignored
+    for k in (im, ns, va, ch, st, co):
+        for i in (0, 1, 2):
+            hs.append([('add', im, 0), ('add', st, 0), ('insord', k, i, 0), ('insord', k, i, 1)])
+            hs.append([('add', im, 0), ('insord', k, min(i, 1), 0)])
     # the default namespace, used by a bare type selector
     hs.append([('nsset', '', 'u'), ('ins', S('style', used=['u']), None, 1), ('nsdel', ''), ('nsset', '', 'u'), ('nsset', '', 'v'),
                ('nsset', 'p', 'u'), ('nsdel', ''), ('del', 0), ('del', 0), ('nsdel', 'p')])
@@ -380,8 +387,10 @@ class Walker:
         x = r.random()
         if x < 0.22:
             return ('ins', self.spec(self.kind(), declared), self.index(n), int(r.random() < 0.3))
-        if x < 0.40:
+        if x < 0.38:
             return ('add', self.spec(self.kind(), declared), int(r.random() < 0.3))
+        if x < 0.40:
+            return ('insord', self.spec(self.kind(), declared), r.randint(0, n), int(r.random() < 0.3))
         if x < 0.50:
             return ('del', r.randint(-n - 1, n))
         if x < 0.55:
@@ -472,11 +481,12 @@ class HistState:
         cssutils, css = cssmods()
         t = op[0]
         try:
-            if t in ('ins', 'add'):
+            if t in ('ins', 'add', 'insord'):
                 spec, via = op[1], op[-1]
                 arg = spec.text(self.prefix_of_sheet) if via else spec.build(self.tracked)
                 self.last_arg = arg
-                r = self.sheet.add(arg) if t == 'add' else self.sheet.insertRule(arg, op[2])
+                r = (self.sheet.add(arg) if t == 'add' else self.sheet.insertRule(arg, op[2]) if t == 'ins'
+                     else self.sheet.insertRule(arg, op[2], inOrder=True))
             elif t == 'del':
                 r = self.sheet.deleteRule(op[1])
             elif t == 'enc':
@@ -644,7 +654,7 @@ class Env:
         return len(st.sheet.cssRules)
 
     def freshen(self, op, i):
-        if op[0] in ('ins', 'add') and op[1].kind == 'namespace':
+        if op[0] in ('ins', 'add', 'insord') and op[1].kind == 'namespace':
             s = op[1]
             return (op[0], Spec('namespace', pre='n%d' % i, uri='u%d' % i)) + tuple(op[2:])
         return op
